@@ -192,6 +192,18 @@ def handle (args : List String) : String :=
       let ent := (List.range (2 * k - 1)).flatMap fun x => (List.range (2 * k)).flatMap fun i =>
         let v := gsVec c s k x i; [v.1, v.2]
       return fListStr ent
+  | ["sixparam", gA, tA, pA, gB, tB, pB] => Id.run do
+      let some l := [gA, tA, pA, gB, tB, pB].mapM fOfBits? | return "bad-op"
+      match l with
+      | [gA, tA, pA, gB, tB, pB] =>
+        let mk (g t ph : Float) (f : Float → Float → Float → Float → Float → Numqi.Lie.Cx Float → List (List (Numqi.Lie.Cx Float))) :=
+          let cg := Float.cos g; let sg := Float.sin g; let ct := Float.cos t; let st := Float.sin t
+          let n0 := Float.sqrt (cg ^ 2 + sg ^ 2 * ct ^ 2)
+          let nrm := if n0 < 1e-12 then 1e-12 else n0
+          f cg sg ct st nrm ⟨Float.cos ph, Float.sin ph⟩
+        let rows := mk gA tA pA sixparamA ++ mk gB tB pB sixparamB
+        return ";".intercalate (rows.flatMap fun r => r.map fun z => s!"{bitsOfF z.re},{bitsOfF z.im}")
+      | _ => return "bad-op"
   | ["pyramid"] => Id.run do
       let c : Nat → Float := fun x => Float.cos (2 * piF * x.toFloat / 5)
       let s : Nat → Float := fun x => Float.sin (2 * piF * x.toFloat / 5)
